@@ -417,7 +417,8 @@ def gen_ops(rnd, nops=30, lin_r=False):
     if rnd.random() < 0.6:
         l = rnd.randrange(ncomp); rs = sorted(rnd.sample([c for c in range(ncomp) if (c != l or lin_r)], 2))
         multiloci.append([l, rs])
-    sp = dict(comps=[0.5, 0.25, 0.25], nodeloci=nodeloci, edgeloci=edgeloci, multiloci=multiloci, perel=[], fixed=[], handlers=[], posts=[])
+    sp = dict(comps=[0.5, 0.25, 0.25], nodeloci=nodeloci, edgeloci=edgeloci, multiloci=multiloci, perel=[], fixed=[], handlers=[], posts=[],
+              bulk=rnd.random() < 0.3)
     # shadow of the network state, to generate legal operations only
     V = list(nodes); E = {frozenset(e) for e in edges}; hascomp = set(nodes); nxt = max(nodes) + 1
     ops = []
